@@ -119,7 +119,7 @@ class Histories(Stream):
         self.req = {}
 
     def cases(self, rng, tier):
-        n = 120 if tier == "quick" else 3000
+        n = 400 if tier == "quick" else 6000
         for _ in range(n):
             k = rng.randint(3, 8)
             master = "".join(rng.sample(MASTER_PARTS, k))
